@@ -129,7 +129,7 @@ func varint(v int) []byte {
 }
 
 // mutations of a valid body: every offset at which a VarInt can be read gets it replaced by -1, 2^31-1, remaining+1
-func mutations(rng *lib.Rng, body []byte, max int) [][]byte {
+func mutations(rng *lib.Rng, body []byte, max int, huge int) [][]byte {
 	var cands []int
 	for i := 0; i < len(body) && i < 96; i++ {
 		cands = append(cands, i)
@@ -143,7 +143,7 @@ func mutations(rng *lib.Rng, body []byte, max int) [][]byte {
 		if err != nil || n == 0 {
 			continue
 		}
-		repl := [][]byte{varint(-1), varint(1<<31 - 1), varint(len(body) - i - n + 1)}[rng.Intn(3)]
+		repl := [][]byte{varint(-1), varint(huge), varint(len(body) - i - n + 1)}[rng.Intn(3)]
 		m := append(append(append([]byte{}, body[:i]...), repl...), body[i+n:]...)
 		out = append(out, m)
 	}
@@ -241,7 +241,7 @@ func commandBodies(rng *lib.Rng, n int) map[string][]byte {
 	return out
 }
 
-func runChildren(self string, jobs []job, dir string) ([]result, []map[string]any) {
+func runChildren(self string, jobs []job, dir string, patience time.Duration) ([]result, []map[string]any) {
 	jobsPath := dir + "/c05_jobs.json"
 	outPath := dir + "/c05_results.txt"
 	b, _ := json.Marshal(jobs)
@@ -276,7 +276,7 @@ func runChildren(self string, jobs []job, dir string) ([]result, []map[string]an
 				if st, err := os.Stat(outPath); err == nil && st.Size() != lastSize {
 					lastSize, lastChange = st.Size(), time.Now()
 				}
-				if time.Since(lastChange) > 40*time.Second {
+				if time.Since(lastChange) > patience {
 					hung = true
 					_ = cmd.Process.Kill()
 					werr = <-done
@@ -314,7 +314,7 @@ func runChildren(self string, jobs []job, dir string) ([]result, []map[string]an
 		}
 		what := "crash"
 		if hung {
-			what = "hang (no progress for 40 s)"
+			what = fmt.Sprintf("hang (no progress for %v)", patience)
 		}
 		se := stderr.String()
 		if len(se) > 600 {
@@ -383,6 +383,12 @@ func main() {
 			continue
 		}
 		cr := rng.Fork()
+		// recorded finding C05-1: a TagsUpdate count of 2^31-1 makes the process allocate until it is killed (each such
+		// payload costs one watchdog period); the quick tier shows the same defect with 2^20 (56 MB for 3 bytes)
+		huge := 1<<31 - 1
+		if tn == "config.TagsUpdate" && f.Tier == "quick" {
+			huge = 1 << 20
+		}
 		for i := 0; i < nRand; i++ {
 			add(r, "random", cr.Bytes(cr.Pick(0, 1, 2, 5, 17, 40, 300)))
 		}
@@ -392,7 +398,7 @@ func main() {
 			if err := util.RecoverFunc(func() error { return pk.Encode(r.Ctx(), &b) }); err == nil {
 				body := b.Bytes()
 				add(r, "valid", body)
-				for _, m := range mutations(cr, body, nMut) {
+				for _, m := range mutations(cr, body, nMut, huge) {
 					add(r, "mutated-varint", m)
 				}
 				if len(body) > 1 {
@@ -402,7 +408,7 @@ func main() {
 			}
 		}
 		// a count / length bomb right at the start
-		add(r, "bomb", varint(1<<31-1))
+		add(r, "bomb", varint(huge))
 		add(r, "bomb", append(varint(1<<20), cr.Bytes(3)...))
 		switch tn {
 		case "packet.DialogShow", "packet.Disconnect", "chat.SystemChat", "title.Text", "packet.ServerData", "packet.JoinGame", "packet.Respawn":
@@ -435,7 +441,11 @@ func main() {
 	if err != nil {
 		panic(err)
 	}
-	results, goViol := runChildren(self, jobs, f.Out)
+	patience := 40 * time.Second
+	if f.Tier == "quick" {
+		patience = 20 * time.Second
+	}
+	results, goViol := runChildren(self, jobs, f.Out, patience)
 	maxMs, maxRatio := int64(0), 0.0
 	var slowest map[string]any
 	for _, r := range results {
